@@ -6,9 +6,12 @@ EXTENDS Sleep
 T_1    == <<1>>
 T_11   == <<1, 1>>
 T_12   == <<1, 2>>
+T_22   == <<2, 2>>
 T_111  == <<1, 1, 1>>
 T_112  == <<1, 1, 2>>
 T_123  == <<1, 2, 3>>
+T_122  == <<1, 2, 2>>
+T_211  == <<2, 1, 1>>
 T_1122 == <<1, 1, 2, 2>>
 T_1112 == <<1, 1, 1, 2>>
 ====
